@@ -595,6 +595,176 @@ def noise_cases(ctx, rng):
     return n_cases
 
 
+# ------------------------------------------------------------------ table-driven probe of every static attribute
+def signal_recipes():
+    """for every function-backed signal class: how to construct an instance from a random context, and how to
+    construct a FRESH instance with the same public defining attributes as a given (mutated) one"""
+    from types import SimpleNamespace as NS
+    from pyrex.signals import FunctionSignal, FullThermalNoise, FFTThermalNoise
+    from pyrex import askaryan
+    from pyrex.ice_model import ice as default_ice
+    rec = {}
+
+    def copy_components(new, obj, varied):
+        # the generic component lists are defining attributes of every FunctionSignal
+        if varied == "_functions":
+            new._functions = list(obj._functions)
+        new._t0s = list(obj._t0s)
+        new._buffers = [list(b) for b in obj._buffers]
+        new._factors = list(obj._factors)
+        new._filters = [list(g) for g in obj._filters]
+        return new
+
+    def make_plain(rng):
+        n, dt = rng.choice([8, 12, 16]), rng.choice([0.25, 0.5])
+        times = rng.randint(-6, 6) * 0.5 + dt * np.arange(n)
+        c = float(times[0]) + rng.randint(-4, n + 4) * dt
+        sig = FunctionSignal(times, pulse_fn(rng.randrange(4), c, rng.choice([0.5, 1.0]), rng.choice([-2, 1, 3]), rng.randint(-1, 1)),
+                             rng.choice([None, "voltage"]))
+        if rng.random() < 0.6:
+            sig.filter_frequencies(delay_filter(rng.choice([0.5, 1.0])))
+        return sig, {}
+
+    def rebuild_plain(obj, cx, varied):
+        new = fresh_function_signal(obj)
+        return new
+    rec["FunctionSignal"] = (make_plain, rebuild_plain)
+
+    def make_noise(cls):
+        def make(rng):
+            np.random.seed(rng.randrange(2 ** 31))
+            n = rng.choice([16, 24, 32])
+            times0 = np.arange(n) * 0.125
+            return cls(times0, (rng.choice([0.5, 1.0]), rng.choice([2.5, 3.5])), rms_voltage=1.0), {"times0": times0}
+        return make
+
+    def rebuild_noise(cls):
+        def rebuild(obj, cx, varied):
+            return copy_components(fresh_noise(cls, obj, cx["times0"]), obj, varied)
+        return rebuild
+    rec["FullThermalNoise"] = (make_noise(FullThermalNoise), rebuild_noise(FullThermalNoise))
+    rec["FFTThermalNoise"] = (make_noise(FFTThermalNoise), rebuild_noise(FFTThermalNoise))
+
+    def make_ask(cls):
+        def make(rng):
+            z = -rng.choice([200.0, 1000.0, 2000.0])
+            n_ice = default_ice.index(z)
+            theta_c = float(np.arccos(1 / n_ice))
+            angle = theta_c + np.radians(rng.choice([0.0, 0.0, 3.0, -4.0, 7.5, 1.0]))      # on-cone and off-cone
+            had = rng.choice([0.2, 0.8, 0.5, 1.0, 0.0])
+            part = NS(energy=10 ** rng.uniform(6, 10), vertex=np.array([0.0, 0.0, z]),
+                      interaction=NS(em_frac=1.0 - had, had_frac=had))
+            cx = {"angle": angle, "distance": rng.choice([1.0, 500.0, 2000.0]), "t0": rng.choice([0.0, 10e-9, 25e-9]), "z": z}
+            times = np.linspace(-20e-9, 80e-9, rng.choice([128, 256]))
+            return cls(times, part, cx["angle"], cx["distance"], ice_model=default_ice, t0=cx["t0"]), cx
+        return make
+
+    def rebuild_ask(cls):
+        def rebuild(obj, cx, varied):
+            if hasattr(obj, "energy"):
+                part = NS(energy=obj.energy, vertex=np.array([0.0, 0.0, cx["z"]]), interaction=NS(em_frac=1.0, had_frac=0.0))
+            else:
+                part = NS(energy=1.0, vertex=np.array([0.0, 0.0, cx["z"]]), interaction=NS(em_frac=obj.em_energy, had_frac=obj.had_energy))
+            new = cls(np.array(obj.times), part, cx["angle"], cx["distance"], ice_model=default_ice, t0=cx["t0"])
+            return copy_components(new, obj, varied)
+        return rebuild
+    for name in ("ZHSAskaryanSignal", "AVZAskaryanSignal", "ARZAskaryanSignal", "ARVZAskaryanSignal"):
+        cls = getattr(askaryan, name, None)
+        if cls is not None:
+            rec[name] = (make_ask(cls), rebuild_ask(cls))
+    return rec
+
+
+def vary(name, v, obj, rng):
+    """a DIFFERENT value of the same kind, chosen by the type of the current value (so that attributes added
+    to a static list later are covered without touching this file); returns (ok, new value)"""
+    t = np.asarray(obj.times, dtype=float)
+    dt = float(t[1] - t[0]) if len(t) > 1 else 1.0
+    if isinstance(v, np.ndarray):
+        if v.ndim == 1 and len(v) == len(t) and np.array_equal(v, t):
+            return True, v + 2 * dt                                   # the time grid: two samples later
+        return True, v * rng.choice([1.5, 0.5]) + (0.25 if v.dtype.kind == "f" and rng.random() < 0.3 else 0)
+    if isinstance(v, (bool, str)) or v is None:
+        return False, v
+    if isinstance(v, (int, float, np.integer, np.floating)):
+        return True, (float(v) * rng.choice([2.0, 10.0, 0.1, 0.5]) if v else 1.0)
+    if isinstance(v, list):
+        if all(callable(f) for f in v) and v:
+            return True, [(lambda tt, f=f: 0.5 * np.asarray(f(tt))) for f in v]
+        if all(isinstance(x, (int, float, np.integer, np.floating)) for x in v) and v:
+            return True, [x * 2 + dt for x in v]
+        if all(isinstance(g, list) for g in v) and v:
+            if all(len(g) and all(isinstance(x, (int, float, np.integer, np.floating)) for x in g) for g in v):
+                return True, [[x + (k + 2) * dt for k, x in enumerate(g)] for g in v]
+            if all(all(isinstance(x, tuple) for x in g) for g in v):
+                return True, [list(g) + [(delay_filter(2 * dt), False)] for g in v]
+    return False, v
+
+
+def values_or_exc(sig):
+    try:
+        return np.array(sig.values, dtype=float)
+    except Exception as e:
+        return "EXC:" + type(e).__name__
+
+
+def static_attr_cases(ctx, rng, data):
+    """for every function-backed signal class of the generated table and EVERY attribute in its static list: read,
+    assign a different value, read again (also: assign before the first read, assign twice) and compare with a
+    freshly constructed object of the same class holding the same defining attributes"""
+    if not data:
+        return 0
+    recipes = signal_recipes()
+    n_cases, missing, unvaried, n_unconstructible = 0, [], [], 0
+    for cname in sorted(data["classes"]):
+        c = data["classes"][cname]
+        if "FunctionSignal" not in c["mro"]:
+            continue
+        if cname not in recipes:
+            missing.append(cname)
+            continue
+        make, rebuild = recipes[cname]
+        for attr in c["static"]:
+            for trial in range(ctx.n(4, 25)):
+                obj, cx = make(rng)
+                plan = rng.choice(["read-assign", "read-assign", "assign-first", "assign-twice"])
+                if plan != "assign-first":
+                    values_or_exc(obj)
+                ok, new = vary(attr, getattr(obj, attr, None), obj, rng)
+                if not ok:
+                    unvaried.append("%s.%s" % (cname, attr))
+                    break
+                setattr(obj, attr, new)
+                if plan == "assign-twice":
+                    values_or_exc(obj)
+                    ok, new = vary(attr, getattr(obj, attr), obj, rng)
+                    setattr(obj, attr, new)
+                got = values_or_exc(obj)
+                try:
+                    ref = rebuild(obj, cx, attr)
+                except Exception:
+                    n_unconstructible += 1          # no object with these attributes can be constructed: nothing to compare
+                    continue
+                want = values_or_exc(ref)
+                n_cases += 1
+                ctx.case(key=("static", cname, attr, plan), sample={"class": cname, "attr": attr, "plan": plan} if n_cases % 60 == 1 else None)
+                if isinstance(got, str) or isinstance(want, str):
+                    same = isinstance(got, str) and isinstance(want, str) and got == want
+                    dev = float("nan")
+                else:
+                    scale = max(float(np.max(np.abs(want))) if len(want) else 0.0, 1e-300)
+                    dev = float(np.max(np.abs(got - want))) / scale if got.shape == want.shape and len(want) else (0.0 if got.shape == want.shape else float("inf"))
+                    same = dev <= 1e-9
+                if not same:
+                    ctx.fail("static:%s:%s" % (cname, attr),
+                             "%s: after assigning .%s (%s%s) the values differ from a freshly constructed %s with the same defining "
+                             "attributes (relative deviation %.3g)" % (cname, attr, plan, ", context %s" % {k: v for k, v in cx.items() if k != "times0"} if cx else "", cname, dev),
+                             {"kind": "static", "class": cname, "attr": attr, "plan": plan})
+                    break
+    ctx.extra["static_attr_probe"] = {"cases": n_cases, "unconstructible_skipped": n_unconstructible, "classes_without_recipe": missing, "attributes_not_varied": sorted(set(unvaried))}
+    return n_cases
+
+
 def fresh_path(p):
     """a newly constructed path object of the same class with the same defining attributes"""
     from types import SimpleNamespace
@@ -755,7 +925,11 @@ def run(ctx):
                 "(FFT variant) with matching arrays, shift, scaling between reads vs a freshly constructed noise object and "
                 "(FullThermalNoise) the explicit cosine sum over the published basis; ray tracers: endpoint / ice / dz "
                 "assignment between reads vs fresh tracer; their paths: to_point / from_point / dz / theta0 / ice assignment "
-                "between reads of tof, path_length, directions, coordinates vs a freshly constructed path; non-trivial = "
+                "between reads of tof, path_length, directions, coordinates vs a freshly constructed path; table-driven: for "
+                "every function-backed signal class of the generated table (FunctionSignal, both noise classes, ZHS / AVZ / "
+                "ARZ / ARVZ Askaryan signals at on-cone and off-cone angles, hadronic fraction 0..1, 1e6..1e10 GeV) and EVERY "
+                "attribute of its static list: read, assign a different value chosen by the value's type, read (also assign "
+                "before the first read / twice) vs a freshly CONSTRUCTED object of the class with the same attributes; non-trivial = "
                 "distinct op sequences")
     ctx.trusted += ["Coq 8.16.1 kernel, vm_compute (finite table check, stamp model runs)",
                     "tools/lazy_table.py: AST extraction of static attributes, property reads (transitive), method effect "
@@ -867,6 +1041,11 @@ def run(ctx):
                        "the stamp model of the generated FunctionSignal table predicts a stale read in %d histories" % predicted_stale)
         except Exception as e:
             ctx.oblige("corr:table-predicts-fresh", False, str(e)[-800:])
+    try:
+        n_static = static_attr_cases(ctx, rng, data)
+    except Exception as e:
+        n_static = 0
+        ctx.oblige("corr:static-attribute-probe-ran", False, "%s: %s" % (type(e).__name__, e))
     n_noise = noise_cases(ctx, rng)
     try:
         n_tr = tracer_cases(ctx, rng)
@@ -874,7 +1053,7 @@ def run(ctx):
         n_tr = 0
         ctx.oblige("corr:tracers-ran", False, "%s: %s" % (type(e).__name__, e))
     ctx.extra["correspondence"] = {"core_histories": n_core, "function_signal_histories": n_hist, "function_signal_ops": ops_count,
-                                   "noise_cases": n_noise, "tracer_cases": n_tr, "tolerance": "exact vs fresh object; 1e-9 relative vs eager oracle"}
+                                   "noise_cases": n_noise, "static_attribute_cases": n_static, "tracer_cases": n_tr, "tolerance": "exact vs fresh object; 1e-9 relative vs eager oracle"}
     ctx.extra["search"] = {"ran": True, "oracle": "freshly constructed object with the same defining attributes; independent eager evaluation"}
     # when the proof is broken: name the offending table entries (the dynamic probes above look for the witness)
     if data and not ok:
